@@ -13,6 +13,7 @@ lines are text that belongs to the most recent text-taking directive.
     @@start                              text inserted right after the body `{`
     @@after <anchor> [@@k=<n>|last]      text inserted after the line containing <anchor>
     @@before <anchor> [@@k=<n>|last]     text inserted before the line containing <anchor>
+    @@lettype <var> <type>               adds a type ascription to `let [mut] <var> = ..` (rustc rejects a wrong one; no semantic effect)
     @@end                                text inserted before the last code line of the body (the tail expression, descending
                                          into trailing blocks); use only when that line is a simple expression
     @@loop <k> [<iter>]                  (optional <iter>: names the ghost iterator, `for x in <iter>: expr`) text inserted before the `{` of the k-th loop header (1-based)
@@ -44,6 +45,7 @@ class FnSpec:
         self.inserts = []         # (mode, anchor, k, [(text, origin)])
         self.loops = {}           # k -> [(text, origin)]
         self.loopnames = {}       # k -> ghost iterator name (Verus `for x in NAME: expr`)
+        self.lettypes = []        # (var, type): type ascription added to `let [mut] var = ..` (annotation only)
         self.origin = None
         self.used = False
 
@@ -152,6 +154,10 @@ def parse(path, text=None, sc=None):
                 arg = arg[:m.start()]
             sink = []
             cur_fn.inserts.append((d, arg.strip(), k, sink, origin))
+        elif d == 'lettype':
+            v, _, t = arg.partition(' ')
+            cur_fn.lettypes.append((v.strip(), t.strip()))
+            sink = None
         elif d == 'end':
             sink = []
             cur_fn.inserts.append(('end', '', 1, sink, origin))
